@@ -3,6 +3,7 @@
 from __future__ import annotations
 
 import ast
+import re
 from typing import Dict, List, Optional, Set, Tuple
 
 from ..cfg import CFG
@@ -522,12 +523,14 @@ def backport_map(repo: Repo) -> RuleRun:
     """Abstract run of Mesh.backport on a symbolic mesh (3 operations, optionally one deleted): every
     non-deleted operation receives the 8 vertex positions of ITS block - corners 0-3 on the bottom
     face, 4-7 on the top face - and the mesh is cleared and assembled again afterwards."""
-    from ..peval import NO_MATCH, Evaluator, NotEvaluable, Obj, Raised, Sym
+    from ..peval import NO_MATCH, Evaluator, NotEvaluable, Obj, Raised, Sym, empty_defaults
 
-    r = RuleRun(PROP, "C12.BACKPORT-MAP", floor=4, what="backport writes block i's vertices into the i-th non-deleted operation, all 8 corners, then re-assembles")
+    r = RuleRun(PROP, "C12.BACKPORT-MAP", floor=8, what="backport writes every block's vertices into the operation that block was assembled from (operations deleted before OR after that assembly), all 8 corners, then re-assembles")
     fn = repo.func("mesh.Mesh.backport")
     upd = repo.func("construct.flat.face.Face.update")
-    for deleted in (None, 0, 1, 2):
+    asm = repo.func("mesh.Mesh.assemble")
+    for deleted, late in ((None, None), (0, None), (1, None), (2, None), (None, 0), (None, 1), (None, 2), (0, 2)):
+        # `deleted`: operation deleted BEFORE the assembly that created the blocks; `late`: deleted after it (its block exists)
         ops = []
         for i in range(3):
             op = Obj(f"op{i}", cls=repo.cls("construct.operations.operation.Operation"))
@@ -535,21 +538,56 @@ def backport_map(repo: Repo) -> RuleRun:
                 face = Obj(f"op{i}.{nm}", cls=repo.cls("construct.flat.face.Face"))
                 face.set("points", [Obj(f"op{i}.{nm}.p{k}", position=Sym(f"old{i}{nm}{k}")) for k in range(4)])
                 op.set(f"{nm}_face", face)
+            op.set("chops", {0: [], 1: [], 2: []})
+            op.set("cell_zone", "")
+            op.set("geometry", None)
             ops.append(op)
-        live = [op for i, op in enumerate(ops) if i != deleted]
-        blocks = []
-        for b, op in enumerate(live):
-            blk = Obj(f"block{b}")
-            blk.set("vertices", [Obj(f"v{b}{k}", position=Sym(f"new:{op._name}:{k}")) for k in range(8)])
-            blocks.append(blk)
         mesh = Obj("mesh", cls=repo.cls("mesh.Mesh"))
-        mesh.set("is_assembled", True)
         # operations 0 and 1 belong to one multi-operation entity (a shape), operation 2 stands alone: Mesh.operations is evaluated
         shape_ = Obj("shape", cls=repo.cls("construct.shape.Shape"))
         shape_.set("operations", [ops[0], ops[1]])
+        shape_.set("geometry", None)
         mesh.set("depot", [shape_, ops[2]])
-        mesh.set("blocks", blocks)
         mesh.set("deleted", {ops[deleted]} if deleted is not None else set())
+        empty_defaults(repo, repo.cls("mesh.Mesh"), mesh)
+        bl = Obj("block_list")
+        bl.set("blocks", [])
+        mesh.set("block_list", bl)
+        for nm in ("edge_list", "patch_list", "face_list", "geometry_list", "vertex_list"):
+            mesh.set(nm, Obj(nm))
+
+        # the assembled state is produced by the repository's own assemble() (vertices: one fresh object per corner)
+        def asm_hook(ev, call: ast.Call, name, bl=bl):
+            ch = attr_chain(call.func) or ""
+            if ch == "self._add_vertices":
+                o = ev.eval(call.args[0])
+                return [Obj(f"v:{o._name}:{k}", position=Sym(f"new:{o._name}:{k}")) for k in range(8)]
+            if ch == "Block":
+                args = [ev.eval(a) for a in call.args]
+                b = Obj(f"block{args[0]}")
+                b.set("index", args[0])
+                b.set("vertices", args[1])
+                return b
+            if ch == "self.edge_list.add_from_operation":
+                return []
+            if ch == "self.block_list.add":
+                bl.get("blocks").append(ev.eval(call.args[0]))
+                return None
+            if ch in ("self.patch_list.add", "self.face_list.add", "self.add_geometry", "self.geometry_list.add"):
+                return None
+            if ch == "get_args":
+                return (0, 1, 2)
+            return NO_MATCH
+
+        try:
+            Evaluator(repo=repo, module=asm.module, call_hook=asm_hook).call_funcinfo(asm, [mesh])
+        except (Raised, NotEvaluable) as err:
+            raise AnalysisError(f"Mesh.assemble not evaluable while preparing the assembled mesh: {err}") from err
+        mesh.set("is_assembled", True)
+        mesh.set("blocks", list(bl.get("blocks")))
+        if late is not None:
+            mesh.get("deleted").add(ops[late])
+        label = f"deleted before assembly: {deleted}, after: {late}"
         events = []
 
         def hook(ev, call: ast.Call, name, events=events):
@@ -567,7 +605,7 @@ def backport_map(repo: Repo) -> RuleRun:
         try:
             ev.call_funcinfo(fn, [mesh])
         except Raised as err:
-            r.bad(fn, f"Mesh.backport raises {err.exc_name} on a mesh of 3 operations with operation {deleted} deleted", fn.node, key=f"deleted={deleted}")
+            r.bad(fn, f"Mesh.backport raises {err.exc_name} on a mesh of 3 operations ({label})", fn.node, key=f"deleted={deleted}" + (f":late={late}" if late is not None else ""))
             continue
         except NotEvaluable as err:
             raise AnalysisError(f"Mesh.backport not evaluable on the symbolic mesh: {err}") from err
@@ -578,6 +616,12 @@ def backport_map(repo: Repo) -> RuleRun:
                 want = [Sym(f"old{i}bottom{k}") for k in range(4)] + [Sym(f"old{i}top{k}") for k in range(4)]
                 if got != want:
                     problems.append(f"the deleted operation {i} was rewritten: {got}")
+            elif i == late:
+                # deleted after the assembly: it still has its block; taking that block's positions or being left alone are both fine
+                old_ = [Sym(f"old{i}bottom{k}") for k in range(4)] + [Sym(f"old{i}top{k}") for k in range(4)]
+                own = [Sym(f"new:op{i}:{k}") for k in range(8)]
+                if got not in (old_, own):
+                    problems.append(f"operation {i} (deleted after the assembly) receives positions of another block: {[repr(g) for g in got[:2]]}...")
             else:
                 want = [Sym(f"new:op{i}:{k}") for k in range(8)]
                 wrong = [k for k in range(8) if got[k] != want[k]]
@@ -588,7 +632,7 @@ def backport_map(repo: Repo) -> RuleRun:
             problems.append(f"{len(replaced)} corner point objects were REPLACED instead of moved (what the user declared on them - projections to geometry - is lost by backport)")
         if events != ["self.clear", "self.assemble"]:
             problems.append(f"after copying the positions backport calls {events}; expected clear() then assemble()")
-        r.check(not problems, fn, f"3 operations, deleted={deleted}: every live operation gets its block's 8 positions", f"Mesh.backport (deleted operation: {deleted}): " + "; ".join(problems), fn.node, key=f"deleted={deleted}")
+        r.check(not problems, fn, f"3 operations, {label}: every operation that has a block gets its block's 8 positions", f"Mesh.backport ({label}): " + "; ".join(problems), fn.node, key=f"deleted={deleted}" + (f":late={late}" if late is not None else ""))
     return r
 
 
@@ -630,4 +674,42 @@ def no_stale_lazy_cache(repo: Repo) -> RuleRun:
 
 no_stale_lazy_cache.rule_id = "C12.NO-STALE-CACHE"
 
-RULES = [clear_complete, grade_idempotent, lockstep_filter, backport_map, delete_skip, assemble_walk, backport_owns_points, no_class_state, no_stale_lazy_cache]
+def empty_patch(repo: Repo, prop: str = PROP, rule: str = "C12.EMPTY-PATCH") -> RuleRun:
+    """'Deleting an operation removes its block and nothing else' / 'the same dictionary as a single assembly': PatchList.clear()
+    keeps the Patch objects (so that a type set by the user survives), hence a patch whose only operation was deleted is still in
+    the list, without faces - and must not be written, because the model built with that operation deleted from the start has no
+    such entry. Abstract run of PatchList.description on a list of one patch with a face and one without."""
+    from collections import OrderedDict
+
+    from ..peval import Evaluator, NotEvaluable, Obj, Raised
+
+    r = RuleRun(prop, rule, floor=2, what="the boundary section lists the patches that have faces, and only those (a patch emptied by delete() + clear() + assemble() is kept for its settings but not written)")
+    desc = repo.find_method(repo.cls("lists.patch_list.PatchList"), "description")
+    r.require(desc is not None, "PatchList.description vanished")
+    for order in (("inlet", "lid", "outlet"), ("lid", "inlet", "outlet"), ("inlet", "outlet", "lid")):
+        pl = Obj("patch_list", cls=repo.cls("lists.patch_list.PatchList"))
+        patches = OrderedDict()
+        for nm in order:
+            p_ = Obj(nm)
+            p_.set("name", nm)
+            p_.set("sides", [] if nm == "lid" else [Obj(f"side-{nm}")])
+            p_.set("kind", "wall" if nm == "lid" else "patch")
+            p_.set("description", f"<{nm}>")
+            patches[nm] = p_
+        pl.set("patches", dict(patches))
+        pl.set("default", {})
+        pl.set("merged", [])
+        try:
+            out = Evaluator(repo=repo, module=desc.module).call_funcinfo(desc, [pl])
+        except (Raised, NotEvaluable) as err:
+            raise AnalysisError(f"PatchList.description not evaluable: {err}") from err
+        r.require(isinstance(out, str), "PatchList.description does not evaluate to a string")
+        want = [f"<{nm}>" for nm in order if nm != "lid"]
+        got = re.findall(r"<\w+>", out)
+        r.check(got == want, desc, f"patches {order} (lid without faces): written {got}", f"PatchList.description for patches {order}, 'lid' having no faces, writes {got}; expected {want} - a patch without faces is an entry the model built without the deleted operation does not have", desc.node, key=f"order:{'-'.join(order)}")
+    return r
+
+
+empty_patch.rule_id = "C12.EMPTY-PATCH"
+
+RULES = [clear_complete, grade_idempotent, lockstep_filter, backport_map, delete_skip, assemble_walk, backport_owns_points, no_class_state, no_stale_lazy_cache, empty_patch]
